@@ -46,7 +46,7 @@ static void ev_push_real(u8 kind, u32 rule, u64 a, u64 b);   /* events.h */
 
 u32 x_verif_sym(u32 k, u64 pos, u32 a, u32 m, u64 *np) {
 #ifndef __CPROVER__
-  if (++sp_calls > 4096) { sp_exhausted = 1; *np = pos; return 0; }
+  if (++sp_calls > 4096) { if (!sp_exhausted && vf_mode == 1) { printf("ASSERT-FAIL the rule does not terminate within 4096 sub-rule calls on this input\n"); vf_fail++; } sp_exhausted = 1; *np = pos; return 0; }
   if (k >= SP_K || pos > sp_n) { printf("ASSERT-FAIL stub called out of range k=%u pos=%llu\n", k, (unsigned long long)pos); vf_fail++; *np = pos; return 0; }
 #endif
   CHECK(k < SP_K && pos <= sp_n, "sub-rule invoked at a position inside the input");
